@@ -236,6 +236,77 @@ def massFrom : List (Array Rat) → (Idx → Rat) → Rat
 /-- ∫…∫ φ over all populations (population m on `grids[m]`) -/
 def totalMass (grids : List (Array Rat)) (P : Dens) : Rat := massFrom grids P.f
 
+/-! ### round 6: the array OBJECT — a density given as a strided view, in-place execution
+
+numpy hands the functions an array object: a window `View` (offset, one stride per axis — in elements, any sign —, shape) onto
+a flat buffer.  `phi[i, j, :] = line` with integers and `:` (basic indexing) stores through that window whatever the strides
+are; a name obtained by `reshape` / `ravel` / `ascontiguousarray` is the same memory only for some strides and a copy for the
+others.  `Gen.Admix.memRows` records, per function, what the source does to its argument; `memOk` is what the docstrings
+promise ("Alters phi in place and returns the new version" for the 14 pulses, a new array for everything else). -/
+
+def findMem (name : String) : Option Gen.Admix.MemRow := Gen.Admix.memRows.find? fun r => r.name == name
+
+/-- pulse: documented in place, exactly one store, into the never re-bound parameter itself, by basic indexing, nothing stored
+    through a derived name, the parameter is what is returned.  Any other function: not documented in place, no store at all
+    into the argument or into anything derived from it. -/
+def memOk (m : Gen.Admix.MemRow) : Bool :=
+  if m.isPulse then
+    m.docInPlace && !m.paramRebound && m.directStores == 1 && m.aliasStores == 0 && m.basicIndex && m.returnsParam
+  else !m.docInPlace && m.directStores == 0 && m.aliasStores == 0
+
+structure View where
+  off : Int
+  strides : List Int
+  shape : List Nat
+
+def dotIS : Idx → List Int → Int
+  | i :: is, s :: ss => (i : Int) * s + dotIS is ss
+  | _, _ => 0
+
+/-- address (in elements) of entry `idx` -/
+def View.addr (v : View) (idx : Idx) : Int := v.off + dotIS idx v.strides
+
+/-- flat memory -/
+abbrev Buf := Int → Rat
+
+/-- the density an array object stands for -/
+def readView (b : Buf) (v : View) : Dens := { shape := v.shape, f := fun idx => b (v.addr idx) }
+
+/-- the stores `phi[idx] = val idx` for the multi-indices of the list, one after the other -/
+def storeList (v : View) (val : Idx → Rat) : List Idx → Buf → Buf
+  | [], b => b
+  | idx :: l, b => storeList v val l fun a => if a = v.addr idx then val idx else b a
+
+/-- the entries the generated loop nest writes back (all of them when every loop runs over its whole extent) -/
+def visited (L : Gen.Admix.LoopRow) (shape : List Nat) : List Idx :=
+  (boxIdx shape).filter fun idx => !skippedByLoops L shape idx
+
+inductive ResM where
+  | ok (b : Buf) (out : Dens)   -- memory afterwards, returned density
+  | raises
+  | bad
+
+/-- a public function on an array object `v` over memory `b`.  Everything that is read from the argument (the helper call
+    computing indices and contributions) is evaluated before the first store, so the new values are those of the functional
+    model on `readView b v`; a pulse stores them through the view (basic indexing) and returns the view, a constructor
+    leaves the memory alone and returns a new density.  Functions whose `memRows` entry is not `memOk` are outside the model. -/
+def applyInPlace (r : Gen.Admix.FnRow) (L : Gen.Admix.LoopRow) (m : Gen.Admix.MemRow) (f : List Rat) (grids : List (Array Rat))
+    (b : Buf) (v : View) : ResM :=
+  if m.name != r.name || m.isPulse != r.isPulse || !memOk m || v.strides.length != v.shape.length then .bad
+  else match applyRowL r L f grids (readView b v) with
+    | .raises => .raises
+    | .bad => .bad
+    | .ok Q =>
+      if r.isPulse then
+        let b' := storeList v Q.f (visited L v.shape) b
+        .ok b' (readView b' v)
+      else .ok b Q
+
+def applyInPlaceByName (name : String) (f : List Rat) (grids : List (Array Rat)) (b : Buf) (v : View) : ResM :=
+  match findRow name, findLoop name, findMem name with
+  | some r, some L, some m => applyInPlace r L m f grids b v
+  | _, _, _ => .bad
+
 /-! ### tabulation (driver side) -/
 
 def ofND (T : ND) : Dens := { shape := T.shape, f := T.get }
